@@ -5,7 +5,7 @@ from .. import core, posecase as pc, refenc, bodyexec
 from ..mtexec import f64_bits, bits_f64
 
 RULE = ("v0.2 files with 1..4 coordinate dimensions, 0..3 people, 0..4 frames, confidences incl. −0.0, negative, NaN, subnormal; each read into NumPyPoseBody, TorchPoseBody and TensorflowPoseBody, "
-        "and converted from the NumPy body with torch() / tensorflow(); then a random sequence of the shared operations (get_points, select_frames, slice_step, matmul with a square matrix, zero_filled, copy, flatten) "
+        "converted from the NumPy body with torch() / tensorflow(), and (files with ≥ 2 frames) read as a frame window from a stream straight into each class; then a random sequence of the shared operations (get_points, select_frames, slice_step, matmul with a square matrix, zero_filled, copy, flatten) "
         "on every backend that offers them; views (shape, fps, confidences, missing pattern, zero-filled coordinates) compared pairwise (oracle) and with the Lean model; tensorflow runs in a child process; "
         "non-trivial = file with ≥ 1 point and ≥ 1 frame, distinct by (file, route, ops)")
 ASSUMPTIONS = ["tensorflow CPU kernels flush subnormal numbers to zero: subnormal confidences are not generated (they would be 'zero' for tensorflow only); flatten() of an empty body raises on NumPy and torch alike and is not generated",
@@ -113,10 +113,19 @@ def run(ctx):
             vals = np.abs(vals[np.isfinite(vals)])
             cases.append({"hex": raw.hex(), "route": route, "ops": ops, "shape": [case["body"][k] for k in ("frames", "people", "points", "dims")], "case": case,
                           "maxabs": float(vals.max()) if vals.size else 1.0})
+        b = case["body"]
+        if b["frames"] >= 2 and rng.random() < 0.6:
+            # third route: a frame window read from a stream straight into each body class; the model gets the slice
+            s0 = rng.randrange(b["frames"] - 1); e0 = rng.randint(s0 + 1, b["frames"])
+            per = b["people"] * b["points"]
+            sub = dict(b, frames=e0 - s0, data=b["data"][s0 * per * b["dims"]:e0 * per * b["dims"]], conf=b["conf"][s0 * per:e0 * per])
+            fops = [o for o in ops if o["k"] != "select_frames"]            # frame indexes of the full file do not apply to the window
+            cases.append({"hex": raw.hex(), "route": "read_window", "window": [s0, e0], "ops": fops, "shape": [e0 - s0, b["people"], b["points"], b["dims"]],
+                          "case": {"header": case["header"], "body": sub}, "maxabs": float(vals.max()) if vals.size else 1.0})
     results = {}
     for be in ("numpy", "torch"):
         results[be] = [bodyexec.run_case(c, be) for c in cases]
-    results["tf"] = run_tf([{k: c[k] for k in ("hex", "route", "ops")} for c in cases])
+    results["tf"] = run_tf([{k: c[k] for k in ("hex", "route", "ops", "window") if k in c} for c in cases])
     # model (one run per backend: the constructors differ)
     model = {}
     for be in ("numpy", "torch", "tf"):
@@ -127,7 +136,7 @@ def run(ctx):
             reqs.append({"op": "body_ops", "backend": be, "body": {"fps": f64([b["fps"]["f32"]])[0], "shape": c["shape"], "data": f64(b["data"]), "conf": f64(b["conf"])}, "ops": c["ops"]})
         model[be] = ctx.driver.run(reqs)
     for i, c in enumerate(cases):
-        info = {"file_hex": c["hex"] if len(c["hex"]) < 4000 else None, "shape": c["shape"], "route": c["route"], "ops": c["ops"]}
+        info = {"file_hex": c["hex"] if len(c["hex"]) < 4000 else None, "shape": c["shape"], "route": c["route"], "window": c.get("window"), "ops": c["ops"]}
         F, P, N, D = c["shape"]
         ctx.evaluated((c["hex"], c["route"], json.dumps(c["ops"])), nontrivial=F > 0 and N > 0)
         ctx.count("dims:%d" % D); ctx.count("route:" + c["route"])
